@@ -199,7 +199,7 @@ func (e *Engine) frameTargets(a *act, fs *FuncSpec, entryEnv *specEnv) *frameInf
 		}
 		if x.Op == "call" && x.Args[0].Op == "ident" && x.Args[0].Name == "all" {
 			for _, arg := range x.Args[1:] {
-				for _, h := range e.heapsMatching(arg.String()) {
+				for _, h := range entryEnv.readsHeaps(arg.String()) {
 					fr.wild[h] = true
 				}
 			}
